@@ -779,11 +779,14 @@ func (g *generator) enterNextFinallyFrame() (canContinue bool) {
 		if int(tf.callStackLen) != callStackLen { // have we breached the function boundary?
 			break
 		}
+		tfIdx := len(vm.tryStack) - 1
 		ex := vm.restoreStacks(tf.iterLen, tf.refLen)
 		if ex != nil {
 			vm.throw(ex)
 			return true
 		}
+		// closing the iterators pushes try frames, which may have moved the stack
+		tf = &vm.tryStack[tfIdx]
 		if tf.finallyPos >= 0 {
 			vm.sp = int(tf.sp)
 			vm.stash = tf.stash
